@@ -1305,6 +1305,95 @@ def check_member_refs(ctx, rng, stats, open_f):
         ctx.violation("member-reference stream: not even references to user functions / constructors are accepted (generator broken)",
                       {"broken": "member-reference stream"}, no_input=True)
 
+
+# ------------------------------------------------------------------ tie 5 / oracle G: bounds of type arguments (deterministic, seed-independent)
+
+BOUND_PRELUDE = ("interface HasArea {\n  method area(): int\n}\n"
+                 "class Sq(val s: int) : HasArea {\n  method area(): int = this.s * this.s\n}\n"
+                 "class Blob(val name: Str) {}\n")
+
+
+def bound_programs():
+    """For functions, methods and classes with 1..4 type parameters, every non-empty subset bounded by
+    `HasArea`: one valid control, one program per bounded position whose type argument (`Blob`) does not
+    satisfy the bound (explicit type arguments and inferred), and one violating every bounded position.
+    Each item: (description, bounded flags, satisfied flags, program)."""
+    out = []
+    for n in range(1, 5):
+        for mask in range(1, 1 << n):
+            bounded = [(mask >> i) & 1 == 1 for i in range(n)]
+            tps = ", ".join(f"P{i}: HasArea" if bounded[i] else f"P{i}" for i in range(n))
+            params = ", ".join(f"a{i}: P{i}" for i in range(n))
+            body = " + ".join([f"a{i}.area()" for i in range(n) if bounded[i]])
+            cbody = " + ".join([f"this.a{i}.area()" for i in range(n) if bounded[i]])
+            viols = [[]] + [[i] for i in range(n) if bounded[i]]
+            allb = [i for i in range(n) if bounded[i]]
+            if len(allb) > 1:
+                viols.append(allb)
+            for kind in ("function", "method", "class"):
+                for viol in viols:
+                    for explicit in (False, True):
+                        args, targs = [], []
+                        for i in range(n):
+                            if i in viol:
+                                args.append('Blob.init("b")'); targs.append("Blob")
+                            elif bounded[i]:
+                                args.append(f"Sq.init({i + 2})"); targs.append("Sq")
+                            else:
+                                args.append(str(i + 1) if i % 2 == 0 else '"s"'); targs.append("int" if i % 2 == 0 else "Str")
+                        ta = ("<" + ", ".join(targs) + ">") if explicit else ""
+                        if kind == "function":
+                            decl = f"class Main {{\n  function <{tps}> f({params}): int = {body}\n"
+                            call = f"Main.f{ta}({', '.join(args)})"
+                        elif kind == "method":
+                            decl = f"class Host(val h: int) {{\n  method <{tps}> m({params}): int = this.h + {body}\n}}\nclass Main {{\n"
+                            call = f"Host.init(0).m{ta}({', '.join(args)})"
+                        else:
+                            fields = ", ".join(f"val a{i}: P{i}" for i in range(n))
+                            decl = f"class Bx<{tps}>({fields}) {{\n  method total(): int = {cbody}\n}}\nclass Main {{\n"
+                            call = f"Bx.init{ta}({', '.join(args)}).total()"
+                        src = BOUND_PRELUDE + decl + f"  function main(): unit = Process.println(Str.fromInt({call}))\n}}\n"
+                        flags = "".join("1" if b else "0" for b in bounded)
+                        sat = "".join("0" if i in viol else "1" for i in range(n))
+                        out.append((f"{kind} with <{tps}>, {'explicit' if explicit else 'inferred'} type arguments, violating positions {viol}",
+                                    flags, sat, viol,
+                                    {"sources": {"Main": src}, "entry": "Main", "std": False, "run": True, "ts": True, "timeout_ms": 8000}))
+    return out
+
+
+def check_bounds(ctx, stats, open_f):
+    items = bound_programs()
+    answers = eval_programs([it[4] for it in items])
+    model = run_model([f"bound {it[1]} {it[2]}" for it in items])
+    for (d, flags, sat, viol, prog), a, m in zip(items, answers, model):
+        stats["bound_programs"] = stats.get("bound_programs", 0) + 1
+        stats["gate_lines"].append((a.get("nerr", -1), a.get("compile")))
+        want = int(m.split()[0].split("=")[1]) if m.startswith("errors=") else -1
+        nerr = a.get("nerr", -1)
+        if a.get("check") != "done":
+            ctx.violation(f"bounds: checker did not finish on {d}: {a.get('errors', '')[:120]}", {"program": prog, "answer": a, "broken": "bounds stream"}, no_input=True)
+            return
+        if nerr == 0:
+            stats["bound_accepted"] = stats.get("bound_accepted", 0) + 1
+            wrong = report(ctx, open_f, "type-argument bounds: " + d, prog, a, stats)
+            if want > 0 and not wrong:
+                # accepted although a bound is violated (model: rejected) and the run happened to end well
+                ctx.violation(f"checker accepts a call whose type argument violates its bound ({d}); model reports {m}",
+                              {"protocol": "bound", "line": f"bound {flags} {sat}", "program": prog, "answer": a, "model": m,
+                               "broken": "correspondence bound (Model/BoundCheck.lean vs validate_type_arguments)"}, no_input=True)
+            if len(ctx.violations) > 3:
+                return
+        elif want == 0:
+            ctx.violation(f"bounds: valid control program rejected ({d}): {a.get('errors', '')[:160]}",
+                          {"program": prog, "answer": a, "model": m, "broken": "bounds stream control"}, no_input=True)
+            return
+        elif nerr != want:
+            ctx.violation(f"bounds: {d}: checker reports {nerr} error(s), model {m}",
+                          {"protocol": "bound", "line": f"bound {flags} {sat}", "program": prog, "answer": a, "model": m,
+                           "broken": "correspondence bound (Model/BoundCheck.lean vs validate_type_arguments): bounds_checked_everywhere no longer speaks about this code"},
+                          no_input=True)
+            return
+
 # ------------------------------------------------------------------ gate tie
 
 def check_gate(ctx, stats):
@@ -1446,6 +1535,7 @@ def run(ctx):
         ("layouts", lambda: check_layouts(ctx, rng.fork(), ctx.scale(60, 1500), stats, open_f)),
         ("matches", lambda: check_matches(ctx, rng.fork(), ctx.scale(120, 4000), stats, open_f)),
         ("multimodule", lambda: check_multimodule(ctx, rng.fork(), ctx.scale(12, 250), stats, open_f)),
+        ("bounds", lambda: check_bounds(ctx, stats, open_f)),
         ("member-refs", lambda: check_member_refs(ctx, rng.fork(), stats, open_f)),
         ("loops", lambda: check_loops(ctx, rng.fork(), ctx.scale(60, 1200), stats, open_f)),
         ("generated", lambda: check_generated(ctx, rng.fork(), ctx.scale(40, 600), stats, open_f)),
@@ -1457,8 +1547,8 @@ def run(ctx):
             break
         f()
     evaluations = (stats.get("layout_cases", 0) + stats["kernel_lines"] + stats["str_cases"] + stats["match_cases"] + stats["mutants"] +
-                   stats["generated"] + stats["mm_bases"] + stats["mm_mutants"] + stats["corpus"] + stats.get("loop_programs", 0) + stats.get("member_refs", 0))
-    nontrivial = (stats.get("member_refs_accepted", 0) + stats.get("loop_programs", 0) + stats["mutants_accepted"] + stats["generated_accepted"] + stats["mm_bases"] + stats["mm_mutants_accepted"] +
+                   stats["generated"] + stats["mm_bases"] + stats["mm_mutants"] + stats["corpus"] + stats.get("loop_programs", 0) + stats.get("member_refs", 0) + stats.get("bound_programs", 0))
+    nontrivial = (stats.get("bound_accepted", 0) + stats.get("member_refs_accepted", 0) + stats.get("loop_programs", 0) + stats["mutants_accepted"] + stats["generated_accepted"] + stats["mm_bases"] + stats["mm_mutants_accepted"] +
                   stats["match_acc"].get("1", 0) + stats["str_hist"].get("closed", 0))
     gl = stats.pop("gate_lines")
     ctx.cov.update({
